@@ -93,6 +93,12 @@ func (curve sm2P256Curve) Params() *elliptic.CurveParams {
 func (curve sm2P256Curve) IsOnCurve(X, Y *big.Int) bool {
 	var a, x, y, y2, x3 sm2P256FieldElement
 
+	// coordinates are field elements: a number outside [0, p) is not one, even if
+	// its residue satisfies the equation
+	if X.Sign() < 0 || Y.Sign() < 0 || X.Cmp(curve.P) >= 0 || Y.Cmp(curve.P) >= 0 {
+		return false
+	}
+
 	sm2P256FromBig(&x, X)
 	sm2P256FromBig(&y, Y)
 
